@@ -40,6 +40,9 @@ def check(c: Check):
     clause_h(c)
     clause_i(c)
     clause_j(c)
+    from .common import check_exit_code_tests
+    check_exit_code_tests(c, 'C02-k', ['exactly_lib.processing'], 1,
+                          'the output of a preprocessor that was killed is parsed as the test case')
     from .common import sweep_records
     sweep_records(c, 'C02-rec', ['exactly_lib.processing', 'exactly_lib.common.exit_value', 'exactly_lib.common.process_result_reporter', 'exactly_lib.test_case.result'], floor=12)
 
